@@ -43,6 +43,10 @@ CHECKS["C08"] = helpers_stages
 def kvfault_stages(ctx):
     cfg = "FSCore.fault.cfg" if ctx.tier == "quick" else "FSCore.few.cfg"
     graph_stage(ctx, "kvfault", "MC_FSCore.tla", cfg, "fscore", ["kvfault=plain", "kvfault=txn"], ["--names", "a,b", "--depth", "3"], workers=8)
+    # handle operations (Handles.tla) under store faults: every open handle must keep answering afterwards
+    graph_stage(ctx, "kvfault-handles", "MC_Handles.tla", "Handles.quick.cfg", "handles", ["kvfault=plain", "kvfault=txn"], [],
+                workers=8, sample=0.02 if ctx.tier == "quick" else 0.2)
+    ctx.cov["exhaustive"] = False
 
 
 CHECKS["C14"] = kvfault_stages
